@@ -18,4 +18,30 @@ META = {
   "technique": "runtime monitoring: recorded histories + linearizability checker against a sequential model, Miri/TSan",
  },
 }
+META.update({
+ "C02": {
+  "text": "Lock-step execution against a reference map model: every sequence up to length 3 (quick) / 4 (thorough) over a 41-operation alphabet (load, load_owned, get_cached, get_or_insert, contains, remove, take, clear, directory loads on 2 ids x leaf/compound/storable-only types) on 3 source configurations, plus random length-40 histories over 8 ids x 8 types with source edits, each on AssetCache (with / without reloader), LocalAssetCache and their AnyCache views. After every step: results, presence of every key, values, handle identity, and a token ledger (exactly the model's entries are alive). Miri/ASan repeat a sample.",
+  "design_ref": "DESIGN.md §5 C02, §3.3",
+  "note": "The model (harness/src/model.rs) is the executable statement of the map semantics; cross-front-end equality follows from each front-end agreeing with the model. Bounded-exhaustive only up to the stated length; random beyond.",
+  "technique": "runtime monitoring: reference-model oracle in lock-step over bounded-exhaustive and random API histories",
+ },
+ "C03": {
+  "text": "Exhaustive product of extension list (0-3 entries incl. empty extension) x per-extension file state (absent, unreadable with one of 6 io kinds, undecodable, valid) x default_value (none/Ok/Err) x FileContent variant (7380 cases), each followed by 'failure caches nothing' and repair+retry; compound chains of depth 1-6 failing at each level with the nested error chain checked; every order of three repair edits from every broken start; byte-exactness through the harness identity loader and the crate's Bytes/String/Parse loaders for empty/1B/4KiB+-1/MiB/non-UTF-8 contents.",
+  "design_ref": "DESIGN.md §5 C03",
+  "note": "Only the error *class* (conversion > io > not found > no default) and the named id are judged, as the statement says; which of two same-class errors survives is not.",
+  "technique": "runtime monitoring: reference-model oracle over an exhaustive input product with injected source faults",
+ },
+ "C05": {
+  "text": "Random recipe DAGs (2-12 compound nodes over 1-5 leaves; load / try / get_cached / load_owned / directory / raw-read edges) are loaded through the real cache, then rounds of edits (value, rewiring, break, repair, create, delete) are notified singly or batched with duplicates and noise; after a logical quiescence barrier (hook H-A) and hot_reload() (or in enhance_hot_reloading mode) every affected cached asset must equal a fresh evaluation of its recipe against the current source and the values currently in the real cache; failed reloads must keep the old value. One known finding (reload order computed from the old graph) is reported with its own signature.",
+  "design_ref": "DESIGN.md §5 C05, §3.7",
+  "note": "Edits happen strictly after the load returned; cache-presence observations (contains) are not treated as dependencies; entries created as a side effect of a pass are not judged in that pass. Real-filesystem delivery of notifications is C12's subject.",
+  "technique": "runtime monitoring: reference-model oracle over generated edit/notification histories with a logical quiescence barrier",
+ },
+ "C06": {
+  "text": "On the histories of C05 plus never-notified edits, notifications without edit and for unknown entries: per pass and per cached asset the reload-id delta must be 0 for unaffected assets, at most 1 for affected ones, at least 1 when the value changed and 0 on a failed reload; ReloadWatcher::reloaded and reloaded_global must equal 'id moved since last asked'; ids start at NEVER; every source read made on the reloader thread must lie inside a pass window and be one the model performs for an affected asset.",
+  "design_ref": "DESIGN.md §5 C06",
+  "note": "Numeric reload ids are read from the Debug form of ReloadId. Read attribution is skipped in passes where the known reload-order defect can change which reads happen.",
+  "technique": "runtime monitoring: per-pass invariants on reload ids / watcher answers and an instrumented source's read log checked against the model",
+ },
+})
 NOT_BUILT = {}
